@@ -293,25 +293,6 @@ theorem zoom_axes_ok' (r ndim : ℕ) :
     zoomLoop r ndim = ((List.range ndim).map Ax.g, initLayout r ndim) :=
   zoom_axes_ok r ndim
 
-/-- D5: the old loop (`moveaxis(f, -i, 0)` twice) leaves a tensor field on a 2-D grid permuted. -/
-theorem zoom_axes_current_counterexample_tensor :
-    zoomLoopOld 1 2 ≠ ((List.range 2).map Ax.g, initLayout 1 2) := by decide
-
-/-- D5: … and a scalar field on a 3-D grid. -/
-theorem zoom_axes_current_counterexample_3d :
-    zoomLoopOld 0 3 ≠ ((List.range 3).map Ax.g, initLayout 0 3) := by decide
-
-/-- D4: the sizes the unrepaired code reported for `N = 87, q = 2.5` (FFT taken at 217 samples,
-spacing `2π/(218·δ)`) are not grid-consistent, whatever the input spacing. -/
-theorem d4_reported_sizes_inconsistent (δ : Rat) :
-    ¬ FftConsistent 87 217 217 δ (1 / ((218 : Rat) * δ)) := by
-  intro ⟨_, _, _, h⟩
-  by_cases hδ : δ = 0
-  · subst hδ; simp at h
-  · have h' : (217 : Rat) / 218 = 1 := by
-      rw [← h]; push_cast; field_simp
-    norm_num at h'
-
 /-! ### `make_fourier_transform`: method selection (`Model/FftSelect.lean`)
 
 `choose`/`makeFT` follow the decision logic literally (the planner's float comparison is an oracle
@@ -349,31 +330,6 @@ theorem selection_sound' (i : GridDesc) (o : Option OutReq) (fftCheaper : Bool) 
     ctorPre i o ch ∧ ctorGrid i o ch = requestedDesc i o ∧
       (∀ r, o = some r → ch.via = .params → AxesReproduced ins outs) :=
   selection_sound_fix i o fftCheaper ch ins outs hnum h
-
-/-- the code as written is sound on requested grids that are Cartesian when regular and have the
-input's number of axes -/
-theorem selection_sound_current (i : GridDesc) (o : Option OutReq) (fftCheaper : Bool) (ch : Choice)
-    (ins : List InAxis) (outs : List OutAxis)
-    (hreq : ∀ r, o = some r → r.grid.ndim = i.ndim ∧
-      (r.grid.isRegular = true → r.grid.cartesian = true) ∧ r.numFft = numFftAxes ins outs)
-    (h : choose detectLit i o fftCheaper = some ch) :
-    ctorPre i o ch ∧ ctorGrid i o ch = requestedDesc i o ∧
-      (∀ r, o = some r → ch.via = .params → AxesReproduced ins outs) :=
-  selection_sound i o fftCheaper ch ins outs hreq h
-
-/-- D63: a regular polar grid with FFT-grid numbers is answered with a Cartesian grid. -/
-theorem selection_current_counterexample_noncartesian :
-    ∃ (i : GridDesc) (r : OutReq) (c : Bool) (ch : Choice),
-      makeFT detectLit i (some r) c = .ok ch ∧ r.grid.ndim = i.ndim ∧
-        ctorGrid i (some r) ch ≠ requestedDesc i (some r) :=
-  selection_unsound_noncartesian_old
-
-/-- D63: a regular grid with fewer axes is answered with a grid of the input's dimension. -/
-theorem selection_current_counterexample_ndim :
-    ∃ (i : GridDesc) (r : OutReq) (c : Bool) (ch : Choice),
-      makeFT detectLit i (some r) c = .ok ch ∧ r.grid.cartesian = true ∧
-        ctorGrid i (some r) ch ≠ requestedDesc i (some r) :=
-  selection_unsound_ndim_old
 
 /-- Non-vacuity of the round trip: `N = 87`, `M = Mo = 218`. -/
 example : getFftParameters ⟨87, 1 / 4⟩ ⟨218, 2 / 109, 3 / 8, 0⟩
@@ -521,6 +477,57 @@ theorem fast_backward_of_plan (a : AxisIn) (hN : 0 < a.N) (hδ : a.delta ≠ 0) 
       exact_mod_cast h3'
     exact this
   exact fast_backward_eq_fourier_sum g h1 h2 h3 _ hw F j hj
+
+/-! ### `Old.*` — statements about code that no longer exists in /repo
+
+Documentation of the defects D4, D5, D63 (all repaired in the tree): counterexamples for the
+`…Old` / `detectLit` definitions and the soundness of the unrepaired selection on its restricted
+domain.  They are **not evidence about the working tree**; none of the theorems above uses them.
+(`zoomLoopOld`, `detectLit` are kept in the model only for these statements.) -/
+
+/-- D5: the old loop (`moveaxis(f, -i, 0)` twice) leaves a tensor field on a 2-D grid permuted. -/
+theorem Old.zoom_axes_counterexample_tensor :
+    zoomLoopOld 1 2 ≠ ((List.range 2).map Ax.g, initLayout 1 2) := by decide
+
+/-- D5: … and a scalar field on a 3-D grid. -/
+theorem Old.zoom_axes_counterexample_3d :
+    zoomLoopOld 0 3 ≠ ((List.range 3).map Ax.g, initLayout 0 3) := by decide
+
+/-- D4: the sizes the unrepaired code reported for `N = 87, q = 2.5` (FFT taken at 217 samples,
+spacing `2π/(218·δ)`) are not grid-consistent, whatever the input spacing. -/
+theorem Old.d4_reported_sizes_inconsistent (δ : Rat) :
+    ¬ FftConsistent 87 217 217 δ (1 / ((218 : Rat) * δ)) := by
+  intro ⟨_, _, _, h⟩
+  by_cases hδ : δ = 0
+  · subst hδ; simp at h
+  · have h' : (217 : Rat) / 218 = 1 := by
+      rw [← h]; push_cast; field_simp
+    norm_num at h'
+
+/-- the code as written is sound on requested grids that are Cartesian when regular and have the
+input's number of axes -/
+theorem Old.selection_sound_detectLit (i : GridDesc) (o : Option OutReq) (fftCheaper : Bool) (ch : Choice)
+    (ins : List InAxis) (outs : List OutAxis)
+    (hreq : ∀ r, o = some r → r.grid.ndim = i.ndim ∧
+      (r.grid.isRegular = true → r.grid.cartesian = true) ∧ r.numFft = numFftAxes ins outs)
+    (h : choose detectLit i o fftCheaper = some ch) :
+    ctorPre i o ch ∧ ctorGrid i o ch = requestedDesc i o ∧
+      (∀ r, o = some r → ch.via = .params → AxesReproduced ins outs) :=
+  selection_sound i o fftCheaper ch ins outs hreq h
+
+/-- D63: a regular polar grid with FFT-grid numbers is answered with a Cartesian grid. -/
+theorem Old.selection_counterexample_noncartesian :
+    ∃ (i : GridDesc) (r : OutReq) (c : Bool) (ch : Choice),
+      makeFT detectLit i (some r) c = .ok ch ∧ r.grid.ndim = i.ndim ∧
+        ctorGrid i (some r) ch ≠ requestedDesc i (some r) :=
+  selection_unsound_noncartesian_old
+
+/-- D63: a regular grid with fewer axes is answered with a grid of the input's dimension. -/
+theorem Old.selection_counterexample_ndim :
+    ∃ (i : GridDesc) (r : OutReq) (c : Bool) (ch : Choice),
+      makeFT detectLit i (some r) c = .ok ch ∧ r.grid.cartesian = true ∧
+        ctorGrid i (some r) ch ≠ requestedDesc i (some r) :=
+  selection_unsound_ndim_old
 
 /-- Non-vacuity: a consistent configuration exists (N = 2, M = 4, Mo = 3, δ = 1/2, dT = 1/2). -/
 example : ∃ g : Cfg ℝ ℂ, g.N ≤ g.M ∧ g.Mo ≤ g.M ∧ g.dT * (g.M : ℝ) * g.δ = 1 :=
